@@ -79,13 +79,21 @@ def _walrus_names(parts: Iterable[ast.AST]) -> list[str]:
 def names_read(e: ast.AST) -> set[str]:
     """Local names an expression depends on (roots of attribute chains included as 'a' and 'a.b')."""
     out: set[str] = set()
+    roots_of_chains: set[int] = set()
     for n in ast.walk(e):
-        if isinstance(n, ast.Name):
-            out.add(n.id)
-        elif isinstance(n, ast.Attribute):
+        if isinstance(n, ast.Attribute):
             d = dotted(n)
             if d:
                 out.add(d)
+                x = n
+                while isinstance(x, ast.Attribute):
+                    x = x.value
+                roots_of_chains.add(id(x))
+    for n in ast.walk(e):
+        # a bare name; the root of an attribute chain is covered by the dotted path (rebinding the root
+        # still hits it as a prefix), so that writing self.a does not invalidate a fact about self.b
+        if isinstance(n, ast.Name) and id(n) not in roots_of_chains:
+            out.add(n.id)
     return out
 
 
